@@ -266,6 +266,7 @@ impl Sink {
             return None;
         }
         let payload = Bytes::copy_from_slice(&spec.payload);
+        NOBLOCK_USED.with(|c| c.set(true));
         let r = match self {
             Sink::V3(s) => Self::pb3(s, spec).send_at_least_once_no_block(payload),
             Sink::V5(s) => Self::pb5(s, spec).send_at_least_once_no_block(payload),
@@ -725,10 +726,13 @@ impl Drop for Op {
 
 thread_local! {
     static OP_IDS: Cell<u32> = const { Cell::new(0) };
+    /// a non-awaiting send API was used in the scenario running on this thread
+    pub static NOBLOCK_USED: Cell<bool> = const { Cell::new(false) };
 }
 
 pub fn reset_op_ids() {
     OP_IDS.with(|c| c.set(0));
+    NOBLOCK_USED.with(|c| c.set(false));
 }
 
 pub fn next_op_id() -> u32 {
